@@ -213,6 +213,16 @@ def check_scope(ctx, case) -> None:
     if cand[1] == cand[0]:
         cand = cand[:1]
     e = dirty_engine(ctx, spec, case.get("pre"))
+    rules0 = spec["blocks"][0]["rules"] if spec["blocks"] else []
+    if case.get("retext") and len(rules0) >= 2:
+        # a rule's text is replaced through the public setter and nothing is reloaded by the caller: the export starts
+        # from restart(), which reloads the rules, so the dataset tabulates the engine as it is written now
+        import copy
+
+        e.rule_blocks[0].rules[0].text = gen.rule_text(rules0[1])
+        spec = copy.deepcopy(spec)
+        spec["blocks"][0]["rules"][0] = dict(copy.deepcopy(rules0[1]), enabled=rules0[0].get("enabled", True))
+        ctx.cls("rule_retexted_before_export")
     early = fl.FldExporter(separator=sep, headers=headers, input_values=want_in, output_values=want_out)
     with fl.settings.context(decimals=d):
         # "printed with the configured decimals": the setting in force when the dataset is written, whether the
@@ -311,6 +321,7 @@ def scope_cases(draw, cap):
     want_in, want_out = draw(st.sampled_from([(True, True)] * 4 + [(True, False), (False, True)]))
     pre = [draw(gen.input_row(spec)) for _ in range(draw(st.sampled_from([0, 0, 1, 2])))]
     return {"spec": spec, "pre": pre, "exporter_first": draw(st.booleans()), "via_file": draw(st.integers(0, 4)) == 0,
+            "retext": draw(st.integers(0, 3)) == 0,
             "scope": scope, "v": v, "d": draw(st.sampled_from([0, 1, 2, 3, 3, 3, 4, 6, 9])),
             "sep": draw(st.sampled_from(SEPS)), "headers": draw(st.sampled_from([True, True, False])),
             "inputs": want_in, "outputs": want_out}
